@@ -332,7 +332,7 @@ func tail(s string, n int) string {
 }
 
 type pendingQ struct {
-	kind, id, expect, where string
+	kind, id, site, expect, where string
 	assert                  *sym.Term
 	oblIDs                  []string
 }
@@ -380,32 +380,25 @@ func runInstance(ld *sym.Loaded, spec *Spec, rs *RunSpec, args []int64, known ma
 	}
 	S := e.S
 	var qs []pendingQ
-	// obligations grouped by id
-	type grp struct {
-		viol  []*sym.Term
-		reach []*sym.Term
-		where string
-	}
-	groups := map[string]*grp{}
-	var order []string
+	// one query per obligation site (disjunctions of nonlinear cases are much
+	// harder for the solvers than the cases one by one)
+	siteCount := map[string]int{}
 	for _, o := range e.Obls {
-		g := groups[o.ID]
-		if g == nil {
-			g = &grp{where: o.Where}
-			groups[o.ID] = g
-			order = append(order, o.ID)
-		}
-		g.viol = append(g.viol, S.And(o.Guard, S.Not(o.Cond)))
-		g.reach = append(g.reach, o.Guard)
+		siteCount[o.ID]++
 	}
-	for _, id := range order {
-		g := groups[id]
+	siteIdx := map[string]int{}
+	for _, o := range e.Obls {
 		expect := "unsat"
-		if contains(rs.ExpectSat, id) {
+		if contains(rs.ExpectSat, o.ID) {
 			expect = "sat"
 		}
-		qs = append(qs, pendingQ{kind: "obligation", id: id, expect: expect, where: g.where, assert: S.Or(g.viol...)})
-		qs = append(qs, pendingQ{kind: "reach", id: id, expect: "sat", where: g.where, assert: S.Or(g.reach...)})
+		site := ""
+		if siteCount[o.ID] > 1 {
+			site = fmt.Sprintf("#%d", siteIdx[o.ID])
+			siteIdx[o.ID]++
+		}
+		qs = append(qs, pendingQ{kind: "obligation", id: o.ID, site: site, expect: expect, where: o.Where, assert: S.And(o.Guard, S.Not(o.Cond))})
+		qs = append(qs, pendingQ{kind: "reach", id: o.ID, site: site, expect: "sat", where: o.Where, assert: o.Guard})
 	}
 	covers := map[string][]*sym.Term{}
 	var corder []string
@@ -463,7 +456,7 @@ func runInstance(ld *sym.Loaded, spec *Spec, rs *RunSpec, args []int64, known ma
 	}
 	solvers := rs.Solvers
 	if len(solvers) == 0 {
-		solvers = []string{"z3", "cvc5"}
+		solvers = []string{"z3", "cvc5n"}
 	}
 	t1 := time.Now()
 	out := make([]QueryRes, len(qs))
@@ -488,7 +481,7 @@ func runInstance(ld *sym.Loaded, spec *Spec, rs *RunSpec, args []int64, known ma
 			} else {
 				srs[i] = sym.RunPortfolio(smts[i], timeout, solvers)
 			}
-			out[i] = QueryRes{Instance: res.name, Kind: q.kind, ID: q.id, Expect: q.expect, Status: srs[i].Status, Solver: srs[i].Solver, Secs: srs[i].Secs, Where: q.where, All: srs[i].All}
+			out[i] = QueryRes{Instance: res.name, Kind: q.kind, ID: q.id + q.site, Expect: q.expect, Status: srs[i].Status, Solver: srs[i].Solver, Secs: srs[i].Secs, Where: q.where, All: srs[i].All}
 			if srs[i].Status == "error" {
 				out[i].Note = firstLine(srs[i].Raw)
 			}
